@@ -21,6 +21,12 @@ import typing
 import icontract
 LOG = []
 FCOUNT = {"n": 0}
+class InstanceOnly:
+    """a descriptor which is available only on instances"""
+    def __get__(self, obj, owner=None):
+        if obj is None:
+            raise AttributeError("available only on instances")
+        return 5
 class myprop(property):
     """a sub-class of property with behaviour of its own"""
     def tag(self):
@@ -308,7 +314,7 @@ def check_callable(item, acc):
 # ---------------------------------------------------------------------------------------------
 # classes
 
-CLASS_STYLES = ["plain", "slots", "dataclass", "namedtuple", "no_init", "user_new", "init_args", "factory_new", "factory_new_init", "setstate", "abstract_members"]
+CLASS_STYLES = ["plain", "slots", "dataclass", "namedtuple", "no_init", "user_new", "init_args", "factory_new", "factory_new_init", "setstate", "abstract_members", "getattr_fallback", "descriptors"]
 CHILDREN = [None, "plain_noinit", "plain_init_args", "dbc_noinit", "dbc_init_args", "dbc_new", "plain_new",
             "plain_grandchild", "dbc_grandchild", "plain_mixin_init", "plain_dict_base", "plain_exception_base"]  # constructor inherited by the class that is instantiated
 
@@ -317,7 +323,9 @@ def render_class(style, inv, child, dbc, contracts):
     w = []
     deco = ""
     if contracts:
-        deco = "".join("@icontract.invariant(lambda self: self.v is not None{})\n".format(
+        # (the class with a __getattr__ fall-back gets an invariant which is plainly false, not an AttributeError, on a blank instance)
+        deco = "".join("@icontract.invariant(lambda self: {}{{}})\n".format(
+            "'v' in vars(self)" if style == "getattr_fallback" else "self.v is not None").format(
             {"C": "", "S": ", check_on=icontract.InvariantCheckEvent.SETATTR", "A": ", check_on=icontract.InvariantCheckEvent.ALL"}[c]) for c in inv)
     base = ("icontract.DBC" if contracts else "abc.ABC") if dbc else ""
     bs = "({})".format(base) if base else ""
@@ -326,6 +334,7 @@ def render_class(style, inv, child, dbc, contracts):
                "    sp = myprop(_get_q, doc='doc of the property sub-class')\n"
                + ("    q2 = property(icontract.ensure(lambda result: True)(_get_q), doc='explicit q2 doc')\n" if contracts and dbc else
                   "    q2 = property(_get_q, doc='explicit q2 doc')\n") +
+               "    def swap(this, self):\n        return ('swap', self)\n"
                "    def pub(self, x):\n        return ('pub', x)\n    @property\n    def p(self):\n        \"\"\"doc of p\"\"\"\n        return 7\n"
                "    @staticmethod\n    def sm(x):\n        return ('sm', x)\n    @classmethod\n    def cm(cls, x):\n        return (cls.__name__, x)\n")
     if style == "namedtuple":
@@ -350,6 +359,16 @@ def render_class(style, inv, child, dbc, contracts):
             if not dbc:
                 w[-1] = deco + "class Root(abc.ABC):\n"
             w.append("    v = 1\n    @abc.abstractmethod\n    def am(self):\n        return 0\n    @property\n    @abc.abstractmethod\n    def ap(self):\n        return 0\n")
+        elif style == "descriptors":
+            # members which are descriptors of other kinds than function / property / staticmethod / classmethod
+            w.append("    def __init__(self):\n        self.v = 1\n"
+                     "    @functools.singledispatchmethod\n    def sd(self, a):\n        return 'object'\n"
+                     "    @sd.register\n    def _(self, a: int):\n        return 'int'\n"
+                     "    def _add(self, a, b):\n        return a + b\n    pm = functools.partialmethod(_add, 5)\n"
+                     "    d = InstanceOnly()\n")
+        elif style == "getattr_fallback":
+            # copy and pickle probe a blank instance for __setstate__ & co., which lands in the __getattr__ of the class
+            w.append("    def __init__(self):\n        self.v = 1\n    def __getattr__(self, name):\n        raise AttributeError(name)\n")
         elif style == "setstate":
             # state restored by __setstate__ on a blank instance (copy, pickle): __setstate__ acts as a constructor
             w.append("    def __init__(self):\n        self.v = 1\n    def __getstate__(self):\n        return {'v': self.v}\n"
@@ -442,6 +461,11 @@ def class_script(ns, style, child):
     if r is not None:
         rec("pub", lambda: r.pub(3))
         rec("pub_kw", lambda: r.pub(x=3))
+        rec("swap", lambda: r.swap(4))
+        if style == "descriptors":
+            rec("sd", lambda: (r.sd(1), r.sd("s"), type(inspect.getattr_static(Root, "sd")).__name__))
+            rec("pm", lambda: (r.pm(2), type(inspect.getattr_static(Root, "pm")).__name__))
+            rec("d", lambda: r.d)
         rec("unbound", lambda: Root.pub(r, 3))
         rec("unbound_kw", lambda: Root.pub(self=r, x=3))
         rec("p", lambda: r.p)
@@ -452,6 +476,9 @@ def class_script(ns, style, child):
             rec("setattr", lambda: setattr(r, "v", 9))
         rec("copy", lambda: (type(copy.copy(r)) is Root, copy.copy(r).v))
         rec("deepcopy", lambda: (type(copy.deepcopy(r)) is Root, copy.deepcopy(r).v))
+        if style == "getattr_fallback":
+            rec("missing", lambda: r.nope)
+            rec("hasattr", lambda: (hasattr(r, "nope"), hasattr(r, "v")))
         rec("isinstance", lambda: isinstance(r, Root))
         rec("type", lambda: type(r) is Root)
         if style == "user_new":
@@ -541,7 +568,6 @@ def check_class(item, acc):
                     acc.violation(core.Violation(
                         PROP, "class_use_differs", dict(feats, op=b[0]),
                         "operation {}: bare twin {} vs with invariants {}".format(b[0], b[1:], c[1:]), spec={"item": item}, script=HDR + src_c))
-                    break
             # invariant(...)(K) is K
             import icontract
 
